@@ -1,12 +1,1275 @@
-//! C14 - not implemented yet
-use crate::common::Report;
+//! C14 - secret sharing reconstructs, with the documented per-party layout.
+//!
+//! Four parts, all on the real sharing code:
+//!  * recon: nested type alphabet x value alphabet x 4 seeds through every sharing entry point
+//!    (sum of shares == value with the harness's own adder, per-party slot layout, junk slot independent of
+//!    the secret, reveal functions, JSON round trip of the per-party files, get_evaluator_result);
+//!  * dist:  for one-byte types ALL 2^16 two-byte tapes x ALL secrets through PRNG::verif_from_tape:
+//!    exact uniformity of the pair of shares every party holds, view distribution independent of the
+//!    secret, any two parties reconstruct;
+//!  * law:   wider types on a boundary alphabet of raw generator outputs fed through the tape:
+//!    share0 == raw0, share1 == raw1, share2 == s - raw0 - raw1, junk independent of secret and share draws;
+//!  * evalres: get_evaluator_result's automatic sharing of a plain input + reveal of the output.
+use crate::common::{catch, hash_bytes, Report, SplitMix};
+use crate::vals;
+use ciphercore_base::data_types::{
+    array_type, get_size_in_bits, get_types_vector, named_tuple_type, scalar_type, tuple_type,
+    vector_type, ScalarType, Type, BIT, INT128, INT16, INT32, INT64, INT8, UINT128, UINT16, UINT32,
+    UINT64, UINT8,
+};
+use ciphercore_base::data_values::Value;
+use ciphercore_base::evaluators::get_result_util::get_evaluator_result;
+use ciphercore_base::evaluators::simple_evaluator::SimpleEvaluator;
+use ciphercore_base::graphs::create_context;
+use ciphercore_base::mpc::utils::share_vector;
+use ciphercore_base::random::PRNG;
+use ciphercore_base::typed_value::TypedValue;
+use ciphercore_base::typed_value_secret_shared::replicated_shares::ReplicatedShares;
+use ciphercore_base::typed_value_secret_shared::TypedValueSecretShared;
+use rayon::prelude::*;
+use serde_json::{json, Value as J};
 
-pub fn run(_r: &Report) -> i32 {
-    println!("MACHINERY-ERROR property=C14 check not implemented");
-    2
+#[derive(Clone, Debug)]
+struct Viol {
+    sig: String,
+    what: String,
+    case: J,
 }
 
-pub fn replay(_r: &Report, _rec: &serde_json::Value) -> i32 {
-    println!("MACHINERY-ERROR property=C14 replay not implemented");
-    2
+#[derive(Clone, Copy, PartialEq, Eq, Debug)]
+enum Func {
+    /// TypedValue::secret_share (+ secret_share_reveal)
+    SecretShare,
+    /// TypedValue::get_local_shares_for_each_party
+    LocalShares,
+    /// ReplicatedShares::secret_share_for_parties (+ to_tuple)
+    ReplParties,
+    /// ReplicatedShares::secret_share_for_local_evaluation (+ reveal, to_tuple, from_tuple)
+    ReplLocal,
+    /// mpc::utils::share_vector (one-dimensional arrays only)
+    ShareVector,
+}
+
+impl Func {
+    fn name(&self) -> &'static str {
+        match self {
+            Func::SecretShare => "secret_share",
+            Func::LocalShares => "get_local_shares_for_each_party",
+            Func::ReplParties => "replicated_secret_share_for_parties",
+            Func::ReplLocal => "replicated_secret_share_for_local_evaluation",
+            Func::ShareVector => "share_vector",
+        }
+    }
+    fn from_name(s: &str) -> Option<Func> {
+        ALL_FUNCS.iter().copied().find(|f| f.name() == s)
+    }
+}
+const ALL_FUNCS: [Func; 5] =
+    [Func::SecretShare, Func::LocalShares, Func::ReplParties, Func::ReplLocal, Func::ShareVector];
+
+/// What a sharing entry point returned.
+enum Shared {
+    /// one 3-tuple with all shares, and what the matching reveal function(s) returned
+    Complete(Value, Vec<(String, Value)>),
+    /// one 3-tuple per party
+    Parties([Value; 3]),
+}
+
+fn tclass(t: &Type) -> String {
+    match t {
+        Type::Scalar(st) => format!("scalar-{}", st),
+        Type::Array(_, st) => format!("array-{}", st),
+        Type::Tuple(_) => "tuple".to_string(),
+        Type::Vector(_, _) => "vector".to_string(),
+        Type::NamedTuple(_) => "named-tuple".to_string(),
+    }
+}
+
+fn first_line(s: &str) -> String {
+    s.lines().next().unwrap_or("").chars().take(200).collect()
+}
+
+fn three(t: &Type) -> Type {
+    tuple_type(vec![t.clone(), t.clone(), t.clone()])
+}
+
+/// Runs one sharing entry point of the library. Err = (failure kind, message).
+fn run_sharing(func: Func, t: &Type, v: &Value, prng: &mut PRNG) -> Result<Shared, (String, String)> {
+    let err = |e: String| ("error".to_string(), first_line(&e));
+    let pan = |e: String| ("panic".to_string(), first_line(&e));
+    let tt = three(t);
+    match func {
+        Func::SecretShare => {
+            let tv = TypedValue { value: v.clone(), t: t.clone(), name: None };
+            let sh = catch(|| tv.secret_share(prng)).map_err(pan)?.map_err(|e| err(e.to_string()))?;
+            if sh.t != tt {
+                return Err(("shared-type".into(), format!("secret_share returned type {} instead of {}", sh.t, tt)));
+            }
+            let rv = catch(|| sh.secret_share_reveal()).map_err(pan)?.map_err(|e| err(e.to_string()))?;
+            if rv.t != *t {
+                return Err(("reveal-type".into(), format!("secret_share_reveal returned type {} instead of {}", rv.t, t)));
+            }
+            Ok(Shared::Complete(sh.value.clone(), vec![("secret_share_reveal".to_string(), rv.value)]))
+        }
+        Func::LocalShares => {
+            let tv = TypedValue { value: v.clone(), t: t.clone(), name: None };
+            let ps = catch(|| tv.get_local_shares_for_each_party(prng))
+                .map_err(pan)?
+                .map_err(|e| err(e.to_string()))?;
+            if ps.len() != 3 {
+                return Err(("party-count".into(), format!("{} per-party values instead of 3", ps.len())));
+            }
+            for p in ps.iter() {
+                if p.t != tt {
+                    return Err(("shared-type".into(), format!("per-party value has type {} instead of {}", p.t, tt)));
+                }
+            }
+            Ok(Shared::Parties([ps[0].value.clone(), ps[1].value.clone(), ps[2].value.clone()]))
+        }
+        Func::ReplParties => {
+            let tv = TypedValue { value: v.clone(), t: t.clone(), name: None };
+            let ps = catch(|| ReplicatedShares::secret_share_for_parties(tv, prng))
+                .map_err(pan)?
+                .map_err(|e| err(e.to_string()))?;
+            if ps.len() != 3 {
+                return Err(("party-count".into(), format!("{} per-party values instead of 3", ps.len())));
+            }
+            let mut out = vec![];
+            for p in ps.iter() {
+                let tp = catch(|| p.to_tuple()).map_err(pan)?.map_err(|e| err(e.to_string()))?;
+                if tp.t != tt {
+                    return Err(("shared-type".into(), format!("to_tuple has type {} instead of {}", tp.t, tt)));
+                }
+                out.push(tp.value);
+            }
+            Ok(Shared::Parties([out[0].clone(), out[1].clone(), out[2].clone()]))
+        }
+        Func::ReplLocal => {
+            let tv = TypedValue { value: v.clone(), t: t.clone(), name: None };
+            let sh = catch(|| ReplicatedShares::secret_share_for_local_evaluation(tv, prng))
+                .map_err(pan)?
+                .map_err(|e| err(e.to_string()))?;
+            let tp = catch(|| sh.to_tuple()).map_err(pan)?.map_err(|e| err(e.to_string()))?;
+            if tp.t != tt {
+                return Err(("shared-type".into(), format!("to_tuple has type {} instead of {}", tp.t, tt)));
+            }
+            let rv = catch(|| sh.reveal()).map_err(pan)?.map_err(|e| err(e.to_string()))?;
+            if rv.t != *t {
+                return Err(("reveal-type".into(), format!("reveal returned type {} instead of {}", rv.t, t)));
+            }
+            let back = catch(|| ReplicatedShares::from_tuple(tp.clone()))
+                .map_err(pan)?
+                .map_err(|e| err(e.to_string()))?;
+            let rv2 = catch(|| back.reveal()).map_err(pan)?.map_err(|e| err(e.to_string()))?;
+            if rv2.t != *t {
+                return Err(("reveal-type".into(), format!("from_tuple().reveal() returned type {} instead of {}", rv2.t, t)));
+            }
+            Ok(Shared::Complete(
+                tp.value,
+                vec![("reveal".to_string(), rv.value), ("from_tuple.reveal".to_string(), rv2.value)],
+            ))
+        }
+        Func::ShareVector => {
+            let st = t.get_scalar_type();
+            let elems = vals::arr_elems(v, t).ok_or(("harness".to_string(), "bad input value".to_string()))?;
+            let res = if vals::st_signed(&st) {
+                let data: Vec<i128> = elems.iter().map(|e| vals::to_signed(*e, &st)).collect();
+                catch(|| share_vector(prng, &data, st))
+            } else {
+                catch(|| share_vector(prng, &elems, st))
+            };
+            let ps = res.map_err(pan)?.map_err(|e| err(e.to_string()))?;
+            if ps.len() != 3 {
+                return Err(("party-count".into(), format!("{} per-party values instead of 3", ps.len())));
+            }
+            Ok(Shared::Parties([ps[0].clone(), ps[1].clone(), ps[2].clone()]))
+        }
+    }
+}
+
+/// type-recursive a - b (own arithmetic)
+fn sub_values(a: &Value, b: &Value, t: &Type) -> Option<Value> {
+    match t {
+        Type::Scalar(st) | Type::Array(_, st) => {
+            let x = vals::arr_elems(a, t)?;
+            let y = vals::arr_elems(b, t)?;
+            let m = vals::st_mask(st);
+            let z: Vec<u128> = x.iter().zip(y.iter()).map(|(p, q)| p.wrapping_sub(*q) & m).collect();
+            Some(Value::from_bytes(vals::encode(&z, st)))
+        }
+        _ => {
+            let ts = get_types_vector(t.clone()).ok()?;
+            let xs = a.to_vector().ok()?;
+            let ys = b.to_vector().ok()?;
+            if xs.len() != ts.len() || ys.len() != ts.len() {
+                return None;
+            }
+            let mut out = vec![];
+            for i in 0..ts.len() {
+                out.push(sub_values(&xs[i], &ys[i], &ts[i])?);
+            }
+            Some(Value::from_vector(out))
+        }
+    }
+}
+
+fn sum3(s: &[Value], t: &Type) -> Option<Value> {
+    vals::add_values(&vals::add_values(&s[0], &s[1], t)?, &s[2], t)
+}
+
+/// Checks a complete 3-tuple of shares: layout of every share, sum == secret. Returns the shares.
+fn check_complete(t: &Type, secret: &Value, tuple: &Value) -> Result<Vec<Value>, (String, String)> {
+    let s = match tuple.to_vector() {
+        Ok(s) if s.len() == 3 => s,
+        _ => return Err(("tuple-layout".into(), "shared value is not a 3-tuple".into())),
+    };
+    for k in 0..3 {
+        if !vals::layout_ok(&s[k], t) {
+            return Err((
+                "share-layout".into(),
+                format!("share {} is not a valid encoding of {} (length / unused bits)", k, t),
+            ));
+        }
+    }
+    let sum = sum3(&s, t).ok_or(("share-layout".to_string(), "shares cannot be added".to_string()))?;
+    if &sum != secret {
+        return Err((
+            "reconstruct".into(),
+            format!("shares add up to {} instead of {}", vals::show(&sum, t), vals::show(secret, t)),
+        ));
+    }
+    Ok(s)
+}
+
+/// Checks the three per-party tuples: party p holds share p in slot p and share p+1 in slot p+1, the two
+/// holders of a share agree, every pair of parties reconstructs, the remaining slot has the type's layout.
+/// Returns (true shares, junk slots indexed by party).
+fn check_parties(t: &Type, secret: &Value, tuples: &[Value; 3]) -> Result<(Vec<Value>, Vec<Value>), (String, String)> {
+    let mut slots: Vec<Vec<Value>> = vec![];
+    for p in 0..3 {
+        match tuples[p].to_vector() {
+            Ok(s) if s.len() == 3 => slots.push(s),
+            _ => return Err(("tuple-layout".into(), format!("value of party {} is not a 3-tuple", p))),
+        }
+    }
+    for p in 0..3 {
+        for k in [p, (p + 1) % 3] {
+            if !vals::layout_ok(&slots[p][k], t) {
+                return Err((
+                    "share-layout".into(),
+                    format!("party {} slot {} is not a valid encoding of {} (length / unused bits)", p, k, t),
+                ));
+            }
+        }
+        let jk = (p + 2) % 3;
+        let ok = catch(|| slots[p][jk].check_type(t.clone())).ok().and_then(|x| x.ok()).unwrap_or(false);
+        if !ok {
+            return Err((
+                "junk-layout".into(),
+                format!("party {} slot {} (the slot it must not know) is not a value of type {}", p, jk, t),
+            ));
+        }
+    }
+    // share k is held by party k (slot k) and by party k-1 (slot k)
+    let mut shares = vec![];
+    for k in 0..3 {
+        let a = &slots[k][k];
+        let b = &slots[(k + 2) % 3][k];
+        if a != b {
+            return Err((
+                "replicas-disagree".into(),
+                format!(
+                    "share {} differs between party {} ({}) and party {} ({})",
+                    k,
+                    k,
+                    vals::show(a, t),
+                    (k + 2) % 3,
+                    vals::show(b, t)
+                ),
+            ));
+        }
+        shares.push(a.clone());
+    }
+    // any two parties together: p and q=p+1 hold slots p,p+1 and p+1,p+2
+    for p in 0..3 {
+        let q = (p + 1) % 3;
+        let u = vec![slots[p][p].clone(), slots[p][q].clone(), slots[q][(q + 1) % 3].clone()];
+        // u = shares p, p+1, p+2 (cyclic order; addition is commutative)
+        let sum = sum3(&u, t).ok_or(("share-layout".to_string(), "shares cannot be added".to_string()))?;
+        if &sum != secret {
+            return Err((
+                "reconstruct".into(),
+                format!(
+                    "parties {} and {} reconstruct {} instead of {}",
+                    p,
+                    q,
+                    vals::show(&sum, t),
+                    vals::show(secret, t)
+                ),
+            ));
+        }
+    }
+    let junk = (0..3).map(|p| slots[p][(p + 2) % 3].clone()).collect();
+    Ok((shares, junk))
+}
+
+// ---------------------------------------------------------------------------------------------
+// alphabets
+
+fn type_alphabet() -> Vec<(String, Type)> {
+    let mut ts: Vec<Type> = vec![];
+    for st in vals::ALL_ST.iter() {
+        ts.push(scalar_type(*st));
+    }
+    for shape in [vec![1u64], vec![3], vec![2, 2]] {
+        for st in vals::ALL_ST.iter() {
+            ts.push(array_type(shape.clone(), *st));
+        }
+    }
+    for shape in [vec![7u64], vec![8], vec![9], vec![2, 5], vec![3, 3], vec![64], vec![65]] {
+        ts.push(array_type(shape, BIT));
+    }
+    ts.push(array_type(vec![70], UINT64));
+    // containers
+    ts.push(tuple_type(vec![]));
+    ts.push(tuple_type(vec![scalar_type(BIT), scalar_type(INT32)]));
+    ts.push(tuple_type(vec![scalar_type(UINT8), scalar_type(UINT8), scalar_type(UINT8)]));
+    ts.push(tuple_type(vec![
+        tuple_type(vec![scalar_type(UINT8), array_type(vec![3], BIT)]),
+        array_type(vec![2], INT64),
+    ]));
+    ts.push(vector_type(0, scalar_type(UINT8)));
+    ts.push(vector_type(3, array_type(vec![5], BIT)));
+    ts.push(vector_type(2, tuple_type(vec![scalar_type(UINT16), scalar_type(INT128)])));
+    ts.push(vector_type(2, vector_type(2, scalar_type(BIT))));
+    ts.push(named_tuple_type(vec![
+        ("a".to_string(), scalar_type(BIT)),
+        ("b".to_string(), array_type(vec![2], UINT128)),
+    ]));
+    ts.push(named_tuple_type(vec![
+        ("x".to_string(), vector_type(2, scalar_type(INT8))),
+        ("y".to_string(), named_tuple_type(vec![("z".to_string(), scalar_type(UINT64))])),
+        ("w".to_string(), tuple_type(vec![array_type(vec![11], BIT), scalar_type(INT16)])),
+    ]));
+    ts.into_iter().map(|t| (format!("{}", t), t)).collect()
+}
+
+fn share_vector_types() -> Vec<(String, Type)> {
+    let mut ts = vec![];
+    for n in [1u64, 3, 8, 9] {
+        for st in vals::ALL_ST.iter() {
+            ts.push(array_type(vec![n], *st));
+        }
+    }
+    ts.into_iter().map(|t| (format!("{}", t), t)).collect()
+}
+
+fn find_type(label: &str) -> Option<Type> {
+    type_alphabet()
+        .into_iter()
+        .chain(share_vector_types())
+        .chain(dist_specs(true).into_iter().map(|d| (d.label.clone(), d.t)))
+        .chain(law_types())
+        .find(|(l, _)| l == label)
+        .map(|x| x.1)
+}
+
+const N_FIXED_KINDS: usize = 6;
+const N_KINDS: usize = 8;
+
+/// value alphabet per leaf: 0 zero, 1 all ones, 2 sign bit, 3 one, 4 counting, 5 alternating, 6.. seed-derived
+fn make_value(t: &Type, kind: usize, seed: u64, label: &str) -> Value {
+    let mut leaf = 0u64;
+    let mut rng = SplitMix(seed ^ crate::common::hash_str(label) ^ ((kind as u64) << 56) ^ 0xC14);
+    vals::build_value(t, &mut |lt| {
+        let st = lt.get_scalar_type();
+        let n = vals::num_elems(lt);
+        let w = vals::st_bits(&st);
+        let m = vals::st_mask(&st);
+        leaf += 1;
+        let elems: Vec<u128> = (0..n)
+            .map(|i| match kind {
+                0 => 0,
+                1 => m,
+                2 => 1u128 << (w - 1),
+                3 => 1,
+                4 => (i as u128 + leaf as u128) & m,
+                5 => (0x5555_5555_5555_5555_5555_5555_5555_5555u128 >> (i % 2)) & m,
+                _ => (((rng.next() as u128) << 64) | rng.next() as u128) & m,
+            })
+            .collect();
+        vals::arr_value(&elems, &st)
+    })
+}
+
+fn seeds(rseed: u64) -> Vec<[u8; 16]> {
+    let mut a = [0u8; 16];
+    for (i, x) in a.iter_mut().enumerate() {
+        *x = i as u8 + 1;
+    }
+    let mut d = [0u8; 16];
+    d.copy_from_slice(&SplitMix(rseed ^ 0x00C1_4C14).bytes(16));
+    vec![[0u8; 16], a, [0xffu8; 16], d]
+}
+
+fn has_padding_bits(t: &Type) -> bool {
+    match t {
+        Type::Scalar(st) => *st == BIT,
+        Type::Array(_, st) => *st == BIT && vals::num_elems(t) % 8 != 0,
+        _ => get_types_vector(t.clone()).map(|ts| ts.iter().any(|x| has_padding_bits(x))).unwrap_or(false),
+    }
+}
+
+// ---------------------------------------------------------------------------------------------
+// part 1: reconstruction and layout
+
+#[derive(Default)]
+struct ReconStats {
+    calls: u64,
+    junk_slots: u64,
+    junk_coincides_small: u64,
+    padding_cases: u64,
+    unions: u64,
+    json_roundtrips: u64,
+    reveals: u64,
+}
+
+/// One (function, type, value kind, seed) case. `junk_ref`: junk slots seen for value kind 0 under the
+/// same seed (None for kind 0 itself; then the junk is returned for later comparison).
+fn recon_case(
+    rseed: u64,
+    func: Func,
+    label: &str,
+    t: &Type,
+    kind: usize,
+    seed_idx: usize,
+    junk_ref: Option<&Vec<Value>>,
+    st: &mut ReconStats,
+    verbose: bool,
+) -> (Vec<Viol>, Option<Vec<Value>>) {
+    let mut viols = vec![];
+    let secret = make_value(t, kind, rseed, label);
+    let seed = seeds(rseed)[seed_idx];
+    let case = json!({"part": "recon", "func": func.name(), "type": label, "kind": kind, "seed_idx": seed_idx,
+                      "secret": vals::show(&secret, t)});
+    let mk = |kindstr: &str, msg: String| Viol {
+        sig: format!("C14:{}:{}:{}", func.name(), kindstr, tclass(t)),
+        what: format!("{} on {} (value kind {}, seed {}): {}", func.name(), label, kind, seed_idx, msg),
+        case: case.clone(),
+    };
+    let mut prng = PRNG::new(Some(seed)).unwrap();
+    st.calls += 1;
+    if has_padding_bits(t) {
+        st.padding_cases += 1;
+    }
+    let shared = match run_sharing(func, t, &secret, &mut prng) {
+        Ok(s) => s,
+        Err((k, m)) => {
+            if verbose {
+                println!("  observed: {} - {}", k, m);
+            }
+            viols.push(mk(&k, m));
+            return (viols, None);
+        }
+    };
+    match shared {
+        Shared::Complete(tuple, reveals) => {
+            match check_complete(t, &secret, &tuple) {
+                Ok(_) => {}
+                Err((k, m)) => viols.push(mk(&k, m)),
+            }
+            for (name, rv) in reveals.iter() {
+                st.reveals += 1;
+                if verbose {
+                    println!("  {}: expected {} observed {}", name, vals::show(&secret, t), vals::show(rv, t));
+                }
+                if rv != &secret {
+                    viols.push(mk(
+                        &format!("{}-wrong", name),
+                        format!("{} returned {} instead of {}", name, vals::show(rv, t), vals::show(&secret, t)),
+                    ));
+                }
+            }
+            (viols, None)
+        }
+        Shared::Parties(tuples) => {
+            if verbose {
+                for p in 0..3 {
+                    println!("  party {} holds {}", p, vals::show(&tuples[p], &three(t)));
+                }
+            }
+            let (shares, junk) = match check_parties(t, &secret, &tuples) {
+                Ok(x) => x,
+                Err((k, m)) => {
+                    viols.push(mk(&k, m));
+                    return (viols, None);
+                }
+            };
+            st.unions += 3;
+            st.junk_slots += 3;
+            let bits = get_size_in_bits(t.clone()).unwrap_or(0);
+            for p in 0..3 {
+                let k = (p + 2) % 3;
+                if junk[p] == shares[k] {
+                    if bits >= 64 {
+                        viols.push(mk(
+                            "junk-equals-share",
+                            format!("party {} slot {} contains the true share {} it must not know", p, k, k),
+                        ));
+                    } else {
+                        st.junk_coincides_small += 1;
+                    }
+                }
+            }
+            if let Some(jr) = junk_ref {
+                for p in 0..3 {
+                    if junk[p] != jr[p] {
+                        viols.push(mk(
+                            "junk-depends-on-secret",
+                            format!(
+                                "party {} junk slot is {} for this secret but {} for the zero secret under the same seed",
+                                p,
+                                vals::show(&junk[p], t),
+                                vals::show(&jr[p], t)
+                            ),
+                        ));
+                    }
+                }
+            }
+            // what ciphercore_split_parties writes and the parties read back: JSON of the typed tuples
+            // (types without any data, e.g. a zero-length vector, are left out: the human-readable format does not
+            // keep the element type of an empty vector - a serialization matter, nothing is shared there)
+            if func == Func::LocalShares && seed_idx == 0 && bits > 0 {
+                let tt = three(t);
+                let tvs: Vec<TypedValue> =
+                    tuples.iter().map(|v| TypedValue { value: v.clone(), t: tt.clone(), name: None }).collect();
+                st.json_roundtrips += 1;
+                let rt = catch(|| -> Result<Vec<TypedValue>, String> {
+                    let s = serde_json::to_string(&tvs).map_err(|e| format!("serialize: {}", e))?;
+                    serde_json::from_str::<Vec<TypedValue>>(&s).map_err(|e| format!("deserialize: {}", e))
+                });
+                match rt {
+                    Ok(Ok(back)) => {
+                        if back.len() != 3 || (0..3).any(|p| back[p].t != tt || back[p].value != tuples[p]) {
+                            viols.push(mk(
+                                "party-file-json-roundtrip",
+                                "per-party typed values change in a JSON round trip (what the split tool writes)".into(),
+                            ));
+                        }
+                    }
+                    Ok(Err(e)) => viols.push(mk("party-file-json-roundtrip", first_line(&e))),
+                    Err(e) => viols.push(mk("party-file-json-roundtrip", format!("panic: {}", first_line(&e)))),
+                }
+            }
+            (viols, Some(junk))
+        }
+    }
+}
+
+fn recon_part(r: &Report) {
+    let mut st = ReconStats::default();
+    let rseed = r.seed;
+    let n_seeds = 4;
+    for func in ALL_FUNCS.iter().copied() {
+        let types = if func == Func::ShareVector { share_vector_types() } else { type_alphabet() };
+        for (label, t) in types.iter() {
+            for seed_idx in 0..n_seeds {
+                let mut junk_ref: Option<Vec<Value>> = None;
+                for kind in 0..N_KINDS {
+                    let (viols, junk) =
+                        recon_case(rseed, func, label, t, kind, seed_idx, junk_ref.as_ref(), &mut st, false);
+                    if kind >= N_FIXED_KINDS {
+                        r.count("extra_seeded_cases", 1);
+                    }
+                    if kind == 0 {
+                        junk_ref = junk;
+                    }
+                    if kind > 0 && get_size_in_bits(t.clone()).unwrap_or(0) > 0 {
+                        r.distinct_str(&format!("recon|{}|{}|{}|{}", func.name(), label, kind, seed_idx));
+                    }
+                    if r.want_sample() && kind == 4 && seed_idx == 1 {
+                        r.sample(json!({"part": "recon", "func": func.name(), "type": label, "kind": kind,
+                                        "seed_idx": seed_idx, "violations": viols.len()}));
+                    }
+                    for v in viols {
+                        r.violation(&v.sig, &v.what, v.case);
+                    }
+                }
+            }
+        }
+    }
+    r.count("evaluations", st.calls);
+    r.count("recon_cases", st.calls);
+    r.count("recon_junk_slots_checked", st.junk_slots);
+    r.count("recon_junk_coincides_with_share_small_types", st.junk_coincides_small);
+    r.count("recon_cases_with_padding_bits", st.padding_cases);
+    r.count("two_party_unions_checked", st.unions);
+    r.count("party_file_json_roundtrips", st.json_roundtrips);
+    r.count("reveals_checked", st.reveals);
+}
+
+// ---------------------------------------------------------------------------------------------
+// part 2: exact distribution over all two-byte tapes
+
+#[derive(Clone)]
+struct DistSpec {
+    label: String,
+    t: Type,
+    bits: u32,
+    secrets: Vec<u8>,
+    funcs: Vec<Func>,
+}
+
+const QUICK_U8_SECRETS: [u8; 16] =
+    [0, 1, 2, 3, 0x7f, 0x80, 0x81, 0xfe, 0xff, 0x55, 0xaa, 0x10, 0x0f, 0xf0, 0x40, 0xc3];
+
+fn dist_specs(thorough: bool) -> Vec<DistSpec> {
+    let typed = vec![Func::SecretShare, Func::LocalShares, Func::ReplParties];
+    let all8: Vec<u8> = if thorough { (0..=255u8).collect() } else { QUICK_U8_SECRETS.to_vec() };
+    let mk = |t: Type, bits: u32, secrets: Vec<u8>, funcs: Vec<Func>| DistSpec {
+        label: format!("{}", t),
+        t,
+        bits,
+        secrets,
+        funcs,
+    };
+    vec![
+        mk(scalar_type(BIT), 1, vec![0, 1], typed.clone()),
+        mk(array_type(vec![3], BIT), 3, (0..8u8).collect(), typed.clone()),
+        mk(scalar_type(UINT8), 8, all8.clone(), typed.clone()),
+        mk(scalar_type(INT8), 8, QUICK_U8_SECRETS.to_vec(), typed.clone()),
+        mk(array_type(vec![1], BIT), 1, vec![0, 1], vec![Func::ShareVector]),
+        mk(array_type(vec![1], UINT8), 8, all8, vec![Func::ShareVector]),
+    ]
+}
+
+struct DistOut {
+    viols: Vec<Viol>,
+    /// per party: hash of the sorted multiset of complete views (three slots) over all tapes
+    view_hash: [u64; 3],
+    tapes: u64,
+    unions: u64,
+}
+
+fn one_byte(v: &Value) -> Option<u8> {
+    v.access_bytes(|b| Ok(if b.len() == 1 { Some(b[0]) } else { None })).ok().flatten()
+}
+
+fn slots_bytes(tuple: &Value) -> Option<[u8; 3]> {
+    let s = tuple.to_vector().ok()?;
+    if s.len() != 3 {
+        return None;
+    }
+    Some([one_byte(&s[0])?, one_byte(&s[1])?, one_byte(&s[2])?])
+}
+
+/// All 65536 two-byte tapes for one (function, type, secret).
+fn dist_one(func: Func, spec: &DistSpec, secret: u8, verbose: bool) -> DistOut {
+    let t = &spec.t;
+    let mask: u8 = if spec.bits == 8 { 0xff } else { (1u8 << spec.bits) - 1 };
+    let secret_v = Value::from_bytes(vec![secret]);
+    let case = json!({"part": "dist", "func": func.name(), "type": spec.label, "secret": secret});
+    let mk = |kindstr: &str, msg: String, extra: J| {
+        let mut c = case.clone();
+        c["detail"] = extra;
+        Viol {
+            sig: format!("C14:{}:dist-{}:{}", func.name(), kindstr, tclass(t)),
+            what: format!("{} on {} secret {}: {}", func.name(), spec.label, secret, msg),
+            case: c,
+        }
+    };
+    let mut viols: Vec<Viol> = vec![];
+    let push = |v: Viol, viols: &mut Vec<Viol>| {
+        if !viols.iter().any(|x| x.sig == v.sig) {
+            viols.push(v);
+        }
+    };
+    let mut pair_counts: Vec<Vec<u32>> = vec![vec![0u32; 65536]; 3];
+    let mut views: Vec<Vec<u32>> = vec![Vec::with_capacity(65536); 3];
+    let mut unions = 0u64;
+    let mut tapes = 0u64;
+    for tape_id in 0..65536u32 {
+        let b0 = (tape_id & 0xff) as u8;
+        let b1 = (tape_id >> 8) as u8;
+        let mut prng = match PRNG::verif_from_tape(vec![b0, b1]) {
+            Ok(p) => p,
+            Err(e) => {
+                push(mk("harness", format!("verif_from_tape failed: {}", e), json!({})), &mut viols);
+                break;
+            }
+        };
+        tapes += 1;
+        let shared = match run_sharing(func, t, &secret_v, &mut prng) {
+            Ok(s) => s,
+            Err((k, m)) => {
+                push(mk(&k, m, json!({"tape": [b0, b1]})), &mut viols);
+                continue;
+            }
+        };
+        // a[p] = the three slots party p holds (for a complete sharing: the shares, junk slot := 0)
+        let a: [[u8; 3]; 3] = match shared {
+            Shared::Complete(tuple, reveals) => {
+                let s = match slots_bytes(&tuple) {
+                    Some(s) => s,
+                    None => {
+                        push(mk("share-layout", "shares are not one byte each".into(), json!({"tape": [b0, b1]})), &mut viols);
+                        continue;
+                    }
+                };
+                for (name, rv) in reveals.iter() {
+                    if one_byte(rv) != Some(secret) {
+                        push(
+                            mk("reveal-wrong", format!("{} does not return the secret", name), json!({"tape": [b0, b1]})),
+                            &mut viols,
+                        );
+                    }
+                }
+                [[s[0], s[1], 0], [0, s[1], s[2]], [s[0], 0, s[2]]]
+            }
+            Shared::Parties(tuples) => {
+                let mut a = [[0u8; 3]; 3];
+                let mut bad = false;
+                for p in 0..3 {
+                    match slots_bytes(&tuples[p]) {
+                        Some(s) => a[p] = s,
+                        None => bad = true,
+                    }
+                }
+                if bad {
+                    push(mk("share-layout", "per-party slots are not one byte each".into(), json!({"tape": [b0, b1]})), &mut viols);
+                    continue;
+                }
+                a
+            }
+        };
+        let show = || json!({"tape": [b0, b1], "party0": a[0].to_vec(), "party1": a[1].to_vec(), "party2": a[2].to_vec()});
+        if verbose && tape_id < 4 {
+            println!("  tape {:?}: {}", [b0, b1], show());
+        }
+        for p in 0..3 {
+            let q = (p + 1) % 3;
+            // held shares are valid encodings (unused bits zero)
+            if a[p][p] & !mask != 0 || a[p][q] & !mask != 0 {
+                push(mk("share-layout", format!("party {} holds a share with unused bits set", p), show()), &mut viols);
+            }
+            // replicas agree: share q is held by p (slot q) and q (slot q)
+            if a[p][q] != a[q][q] {
+                push(mk("replicas-disagree", format!("share {} differs between parties {} and {}", q, p, q), show()), &mut viols);
+            }
+            // p and q together: shares p, q from p, share q+1 from q
+            // bit types: element-wise addition mod 2 (xor); integers: addition mod 2^8
+            let sum = if t.get_scalar_type() == BIT {
+                (a[p][p] ^ a[p][q] ^ a[q][(q + 1) % 3]) & mask
+            } else {
+                a[p][p].wrapping_add(a[p][q]).wrapping_add(a[q][(q + 1) % 3]) & mask
+            };
+            unions += 1;
+            if sum != secret {
+                push(
+                    mk("reconstruct", format!("parties {} and {} reconstruct {} instead of {}", p, q, sum, secret), show()),
+                    &mut viols,
+                );
+            }
+            pair_counts[p][((a[p][p] as usize) << 8) | a[p][q] as usize] += 1;
+            views[p].push(a[p][0] as u32 | (a[p][1] as u32) << 8 | (a[p][2] as u32) << 16);
+        }
+    }
+    // exact uniformity of the pair of shares a party holds
+    let dom = 1usize << spec.bits;
+    let expect = (65536usize / (dom * dom)) as u32;
+    if tapes == 65536 {
+        for p in 0..3 {
+            let mut worst: Option<(usize, usize, u32)> = None;
+            for x in 0..256usize {
+                for y in 0..256usize {
+                    let c = pair_counts[p][(x << 8) | y];
+                    let e = if x < dom && y < dom { expect } else { 0 };
+                    if c != e && worst.is_none() {
+                        worst = Some((x, y, c));
+                    }
+                }
+            }
+            if verbose {
+                println!(
+                    "  party {}: {} distinct held pairs, each expected {} times; first deviation: {:?}",
+                    p,
+                    pair_counts[p].iter().filter(|c| **c > 0).count(),
+                    expect,
+                    worst
+                );
+            }
+            if let Some((x, y, c)) = worst {
+                push(
+                    mk(
+                        "held-pair-not-uniform",
+                        format!(
+                            "party {}: the pair of held shares ({},{}) occurs {} times over all 65536 tapes, expected {}",
+                            p, x, y, c, expect
+                        ),
+                        json!({"party": p, "pair": [x, y], "count": c, "expected": expect}),
+                    ),
+                    &mut viols,
+                );
+            }
+        }
+    }
+    let mut view_hash = [0u64; 3];
+    for p in 0..3 {
+        views[p].sort_unstable();
+        let mut bytes = Vec::with_capacity(views[p].len() * 4);
+        for v in views[p].iter() {
+            bytes.extend_from_slice(&v.to_le_bytes());
+        }
+        view_hash[p] = hash_bytes(&bytes);
+    }
+    DistOut { viols, view_hash, tapes, unions }
+}
+
+fn dist_part(r: &Report) {
+    for spec in dist_specs(r.tier.thorough()).iter() {
+        for func in spec.funcs.iter().copied() {
+            // reference: the first secret, then all others in parallel; merged in enumeration order
+            let outs: Vec<DistOut> =
+                spec.secrets.par_iter().map(|s| dist_one(func, spec, *s, false)).collect();
+            for (i, o) in outs.iter().enumerate() {
+                r.count("evaluations", o.tapes);
+                r.count("dist_tapes", o.tapes);
+                r.count("two_party_unions_checked", o.unions);
+                r.count("dist_secret_runs", 1);
+                r.distinct_str(&format!("dist|{}|{}|{}", func.name(), spec.label, spec.secrets[i]));
+                for v in o.viols.iter() {
+                    r.violation(&v.sig, &v.what, v.case.clone());
+                }
+                for p in 0..3 {
+                    if o.view_hash[p] != outs[0].view_hash[p] {
+                        r.violation(
+                            &format!("C14:{}:dist-view-depends-on-secret:{}", func.name(), tclass(&spec.t)),
+                            &format!(
+                                "{} on {}: the distribution of party {}'s complete view over all 65536 tapes differs between secret {} and secret {}",
+                                func.name(), spec.label, p, spec.secrets[0], spec.secrets[i]
+                            ),
+                            json!({"part": "dist", "func": func.name(), "type": spec.label, "secret": spec.secrets[i],
+                                   "reference_secret": spec.secrets[0], "party": p}),
+                        );
+                    }
+                }
+                r.count("dist_view_distributions_compared", 3);
+            }
+            if r.want_sample() {
+                r.sample(json!({"part": "dist", "func": func.name(), "type": spec.label, "secrets": spec.secrets.len(),
+                                "tapes_per_secret": 65536}));
+            }
+        }
+    }
+}
+
+// ---------------------------------------------------------------------------------------------
+// part 3: exact law on wider types (raw generator outputs fed through the tape)
+
+fn law_types() -> Vec<(String, Type)> {
+    let mut ts = vec![];
+    for st in [UINT8, INT8, UINT16, INT16, UINT32, INT32, UINT64, INT64, UINT128, INT128] {
+        ts.push(scalar_type(st));
+    }
+    for st in [UINT8, INT8, UINT16, INT16, UINT32, INT32, UINT64, INT64, UINT128, INT128] {
+        ts.push(array_type(vec![2], st));
+    }
+    ts.push(tuple_type(vec![scalar_type(UINT8), array_type(vec![2], INT64)]));
+    ts.push(vector_type(2, scalar_type(UINT16)));
+    ts.push(named_tuple_type(vec![("k".to_string(), scalar_type(INT128)), ("v".to_string(), array_type(vec![3], UINT32))]));
+    ts.into_iter().map(|t| (format!("{}", t), t)).collect()
+}
+
+/// boundary alphabet per leaf element; index -> value
+fn boundary(st: &ScalarType, i: usize, pos: usize) -> u128 {
+    let w = vals::st_bits(st);
+    let m = vals::st_mask(st);
+    match i {
+        0 => 0,
+        1 => 1,
+        2 => m,
+        3 => 1u128 << (w - 1),
+        4 => (1u128 << (w - 1)) - 1,
+        _ => (0x0123_4567_89ab_cdef_1357_9bdf_0246_8aceu128.rotate_left(pos as u32 * 8)) & m,
+    }
+}
+const N_BOUNDARY: usize = 6;
+
+fn boundary_value(t: &Type, i: usize) -> Value {
+    let mut pos = 0usize;
+    vals::build_value(t, &mut |lt| {
+        let st = lt.get_scalar_type();
+        let n = vals::num_elems(lt);
+        let e: Vec<u128> = (0..n)
+            .map(|_| {
+                pos += 1;
+                boundary(&st, i, pos)
+            })
+            .collect();
+        vals::arr_value(&e, &st)
+    })
+}
+
+fn flat_bytes(v: &Value, out: &mut Vec<u8>) {
+    match v.to_vector() {
+        Ok(vs) => {
+            for x in vs {
+                flat_bytes(&x, out);
+            }
+        }
+        Err(_) => {
+            let _ = v.access_bytes(|b| {
+                out.extend_from_slice(b);
+                Ok(())
+            });
+        }
+    }
+}
+
+const LAW_FUNCS: [Func; 4] = [Func::SecretShare, Func::LocalShares, Func::ReplParties, Func::ReplLocal];
+
+/// junk draws on the tape: fixed, recognisable bytes
+fn junk_tape(nbytes: usize) -> Vec<u8> {
+    (0..3 * nbytes).map(|i| 0xA0u8.wrapping_add((i * 7) as u8)).collect()
+}
+
+fn law_case(
+    func: Func,
+    label: &str,
+    t: &Type,
+    si: usize,
+    i0: usize,
+    i1: usize,
+    junk_ref: Option<&Vec<Value>>,
+    verbose: bool,
+) -> (Vec<Viol>, Option<Vec<Value>>) {
+    let secret = boundary_value(t, si);
+    let raw0 = boundary_value(t, i0);
+    let raw1 = boundary_value(t, i1);
+    let mut tape = vec![];
+    flat_bytes(&raw0, &mut tape);
+    flat_bytes(&raw1, &mut tape);
+    let nbytes = tape.len() / 2;
+    tape.extend_from_slice(&junk_tape(nbytes));
+    let case = json!({"part": "law", "func": func.name(), "type": label, "secret_idx": si, "raw0_idx": i0, "raw1_idx": i1});
+    let mk = |kindstr: &str, msg: String| Viol {
+        sig: format!("C14:{}:law-{}:{}", func.name(), kindstr, tclass(t)),
+        what: format!(
+            "{} on {} (secret {}, raw draws {} and {}): {}",
+            func.name(),
+            label,
+            vals::show(&secret, t),
+            vals::show(&raw0, t),
+            vals::show(&raw1, t),
+            msg
+        ),
+        case: case.clone(),
+    };
+    let mut viols = vec![];
+    let mut prng = match PRNG::verif_from_tape(tape) {
+        Ok(p) => p,
+        Err(e) => return (vec![mk("harness", format!("verif_from_tape: {}", e))], None),
+    };
+    let shared = match run_sharing(func, t, &secret, &mut prng) {
+        Ok(s) => s,
+        Err((k, m)) => return (vec![mk(&k, m)], None),
+    };
+    let consumed = prng.verif_tape_consumed();
+    let expected2 = sub_values(&sub_values(&secret, &raw0, t).unwrap(), &raw1, t).unwrap();
+    let (shares, junk, want_consumed) = match shared {
+        Shared::Complete(tuple, reveals) => {
+            for (name, rv) in reveals.iter() {
+                if rv != &secret {
+                    viols.push(mk("reveal-wrong", format!("{} returned {}", name, vals::show(rv, t))));
+                }
+            }
+            match check_complete(t, &secret, &tuple) {
+                Ok(s) => (s, None, 2 * nbytes),
+                Err((k, m)) => return (vec![mk(&k, m)], None),
+            }
+        }
+        Shared::Parties(tuples) => match check_parties(t, &secret, &tuples) {
+            Ok((s, j)) => (s, Some(j), 5 * nbytes),
+            Err((k, m)) => return (vec![mk(&k, m)], None),
+        },
+    };
+    if verbose {
+        println!("  expected shares: {} {} {}", vals::show(&raw0, t), vals::show(&raw1, t), vals::show(&expected2, t));
+        println!("  observed shares: {} {} {}", vals::show(&shares[0], t), vals::show(&shares[1], t), vals::show(&shares[2], t));
+        println!("  tape bytes consumed: {} (expected {})", consumed, want_consumed);
+    }
+    if shares[0] != raw0 {
+        viols.push(mk("share0-not-raw-draw", format!("share 0 is {} instead of the first raw draw", vals::show(&shares[0], t))));
+    }
+    if shares[1] != raw1 {
+        viols.push(mk("share1-not-raw-draw", format!("share 1 is {} instead of the second raw draw", vals::show(&shares[1], t))));
+    }
+    if shares[2] != expected2 {
+        viols.push(mk(
+            "share2-not-difference",
+            format!("share 2 is {} instead of s - v0 - v1 = {}", vals::show(&shares[2], t), vals::show(&expected2, t)),
+        ));
+    }
+    if consumed != want_consumed {
+        viols.push(mk(
+            "draw-size",
+            format!("{} bytes of randomness consumed instead of {} ({} draws of {} bytes)", consumed, want_consumed, want_consumed / nbytes.max(1), nbytes),
+        ));
+    }
+    if let (Some(j), Some(jr)) = (junk.as_ref(), junk_ref) {
+        for p in 0..3 {
+            if j[p] != jr[p] {
+                viols.push(mk(
+                    "junk-depends-on-secret-or-shares",
+                    format!(
+                        "party {} junk slot is {} here but {} for secret 0 / zero share draws with the same junk randomness",
+                        p,
+                        vals::show(&j[p], t),
+                        vals::show(&jr[p], t)
+                    ),
+                ));
+            }
+        }
+    }
+    (viols, junk)
+}
+
+fn law_part(r: &Report) {
+    let types = law_types();
+    let results: Vec<(u64, u64, Vec<Viol>)> = types
+        .par_iter()
+        .map(|(label, t)| {
+            let mut viols = vec![];
+            let mut n = 0u64;
+            let mut nj = 0u64;
+            for func in LAW_FUNCS.iter().copied() {
+                let (v0, junk_ref) = law_case(func, label, t, 0, 0, 0, None, false);
+                n += 1;
+                viols.extend(v0);
+                for si in 0..N_BOUNDARY {
+                    for i0 in 0..N_BOUNDARY {
+                        for i1 in 0..N_BOUNDARY {
+                            if si == 0 && i0 == 0 && i1 == 0 {
+                                continue;
+                            }
+                            let (v, _) = law_case(func, label, t, si, i0, i1, junk_ref.as_ref(), false);
+                            n += 1;
+                            if junk_ref.is_some() {
+                                nj += 3;
+                            }
+                            viols.extend(v);
+                        }
+                    }
+                }
+            }
+            (n, nj, viols)
+        })
+        .collect();
+    for (i, (n, nj, viols)) in results.into_iter().enumerate() {
+        r.count("evaluations", n);
+        r.count("law_cases", n);
+        r.count("law_junk_slots_compared", nj);
+        r.distinct_str(&format!("law|{}", types[i].0));
+        for v in viols {
+            r.violation(&v.sig, &v.what, v.case);
+        }
+    }
+}
+
+// ---------------------------------------------------------------------------------------------
+// part 4: get_evaluator_result shares a plain input for a graph that expects shares, and reveals the output
+
+fn evalres_case(rseed: u64, label: &str, t: &Type, kind: usize, verbose: bool) -> Vec<Viol> {
+    let secret = make_value(t, kind, rseed, label);
+    let case = json!({"part": "evalres", "type": label, "kind": kind});
+    let mk = |kindstr: &str, msg: String| Viol {
+        sig: format!("C14:get_evaluator_result:{}:{}", kindstr, tclass(t)),
+        what: format!("get_evaluator_result (auto-share + reveal) on {} value kind {}: {}", label, kind, msg),
+        case: case.clone(),
+    };
+    let res = catch(|| -> Result<TypedValue, String> {
+        let c = create_context().map_err(|e| e.to_string())?;
+        let g = c.create_graph().map_err(|e| e.to_string())?;
+        let i = g.input(three(t)).map_err(|e| e.to_string())?;
+        g.set_output_node(i).map_err(|e| e.to_string())?;
+        g.finalize().map_err(|e| e.to_string())?;
+        c.set_main_graph(g).map_err(|e| e.to_string())?;
+        c.finalize().map_err(|e| e.to_string())?;
+        let ev = SimpleEvaluator::new(Some([7u8; 16])).map_err(|e| e.to_string())?;
+        let tv = TypedValue { value: secret.clone(), t: t.clone(), name: None };
+        get_evaluator_result(c, vec![tv], true, ev).map_err(|e| e.to_string())
+    });
+    match res {
+        Ok(Ok(tv)) => {
+            if verbose {
+                println!("  expected {} observed {} (type {})", vals::show(&secret, t), vals::show(&tv.value, t), tv.t);
+            }
+            if tv.t != *t {
+                return vec![mk("reveal-type", format!("revealed type {} instead of {}", tv.t, t))];
+            }
+            if tv.value != secret {
+                return vec![mk(
+                    "reconstruct",
+                    format!("revealed {} instead of {}", vals::show(&tv.value, t), vals::show(&secret, t)),
+                )];
+            }
+            vec![]
+        }
+        Ok(Err(e)) => vec![mk("error", first_line(&e))],
+        Err(e) => vec![mk("panic", first_line(&e))],
+    }
+}
+
+fn evalres_part(r: &Report) {
+    let types = type_alphabet();
+    // types whose plain value also matches the 3-tuple input type are passed "as is" by design: skip them
+    for (label, t) in types.iter() {
+        if get_size_in_bits(t.clone()).unwrap_or(0) == 0 {
+            continue;
+        }
+        for kind in [1usize, 4, 6] {
+            let viols = evalres_case(r.seed, label, t, kind, false);
+            r.count("evaluations", 1);
+            r.count("evalres_cases", 1);
+            if kind >= N_FIXED_KINDS {
+                r.count("extra_seeded_cases", 1);
+            }
+            for v in viols {
+                r.violation(&v.sig, &v.what, v.case);
+            }
+        }
+    }
+}
+
+// ---------------------------------------------------------------------------------------------
+
+pub fn run(r: &Report) -> i32 {
+    let mut times = serde_json::Map::new();
+    let mut timed = |name: &str, f: &dyn Fn(&Report)| {
+        let t0 = r.elapsed();
+        f(r);
+        times.insert(name.to_string(), json!(((r.elapsed() - t0) * 10.0).round() / 10.0));
+    };
+    timed("recon", &recon_part);
+    timed("law", &law_part);
+    timed("evalres", &evalres_part);
+    timed("dist", &dist_part);
+    r.extra("part_wall_s", J::Object(times));
+    r.finish(
+        "exploration",
+        "recon: 5 sharing entry points x nested type alphabet (11 scalar types, arrays of all of them, bit arrays with \
+         padding, tuples/vectors/named tuples, nested) x 8 value kinds (6 fixed + 2 seed-derived) x 4 generator seeds; \
+         dist: all 65536 two-byte tapes x all secrets (u8: all 256 in thorough, 16 in quick) for bit, bit[3], u8, i8 \
+         (typed API) and bit[1], u8[1] (share_vector); law: 6^3 (secret, raw0, raw1) boundary triples per wider type fed \
+         through the tape; evalres: get_evaluator_result auto-share + reveal per type x 3 values. Non-trivial: non-zero \
+         secret / distinct (function,type,secret).",
+        true,
+        &[
+            "dist: the two share draws are the first two bytes of the tape; junk draws come from the fixed continuation (AES-CTR under the zero key)",
+            "uniformity for types wider than 8 bits rests on the law v2 = s - v0 - v1 with v0, v1 raw generator outputs (checked) and on the generator being unbiased (C15)",
+            "get_evaluator_result draws its sharing randomness from the OS generator; the revealed value must not depend on it",
+        ],
+        &[
+            "recon_cases",
+            "recon_junk_slots_checked",
+            "recon_cases_with_padding_bits",
+            "two_party_unions_checked",
+            "dist_tapes",
+            "dist_view_distributions_compared",
+            "law_cases",
+            "law_junk_slots_compared",
+            "evalres_cases",
+            "reveals_checked",
+            "party_file_json_roundtrips",
+        ],
+    )
+}
+
+pub fn replay(r: &Report, rec: &serde_json::Value) -> i32 {
+    let case = &rec["case"];
+    let part = case["part"].as_str().unwrap_or("");
+    let label = case["type"].as_str().unwrap_or("");
+    let t = match find_type(label) {
+        Some(t) => t,
+        None => {
+            println!("MACHINERY-ERROR property=C14 unknown type label '{}' in replay record", label);
+            return 2;
+        }
+    };
+    let func = Func::from_name(case["func"].as_str().unwrap_or(""));
+    let want_sig = rec["signature"].as_str().unwrap_or("");
+    println!("replaying C14 case: {}", case);
+    let viols: Vec<Viol> = match (part, func) {
+        ("recon", Some(f)) => {
+            let kind = case["kind"].as_u64().unwrap_or(0) as usize;
+            let seed_idx = case["seed_idx"].as_u64().unwrap_or(0) as usize;
+            let mut st = ReconStats::default();
+            let mut junk_ref = None;
+            if kind != 0 {
+                println!(" reference run (zero secret, same seed):");
+                let (_, j) = recon_case(r.seed, f, label, &t, 0, seed_idx, None, &mut st, true);
+                junk_ref = j;
+            }
+            println!(" case run:");
+            recon_case(r.seed, f, label, &t, kind, seed_idx, junk_ref.as_ref(), &mut st, true).0
+        }
+        ("dist", Some(f)) => {
+            let spec = match dist_specs(true).into_iter().find(|d| d.label == label && d.funcs.contains(&f)) {
+                Some(s) => s,
+                None => {
+                    println!("MACHINERY-ERROR property=C14 no distribution spec for {}", label);
+                    return 2;
+                }
+            };
+            let secret = case["secret"].as_u64().unwrap_or(0) as u8;
+            let o = dist_one(f, &spec, secret, true);
+            let mut v = o.viols;
+            if let Some(rs) = case.get("reference_secret").and_then(|x| x.as_u64()) {
+                let o0 = dist_one(f, &spec, rs as u8, true);
+                for p in 0..3 {
+                    println!(
+                        "  party {} view-multiset hash: secret {} -> {:016x}, secret {} -> {:016x}",
+                        p, rs, o0.view_hash[p], secret, o.view_hash[p]
+                    );
+                    if o0.view_hash[p] != o.view_hash[p] {
+                        v.push(Viol {
+                            sig: format!("C14:{}:dist-view-depends-on-secret:{}", f.name(), tclass(&t)),
+                            what: format!("party {} view distribution differs between secrets {} and {}", p, rs, secret),
+                            case: case.clone(),
+                        });
+                    }
+                }
+            }
+            v
+        }
+        ("law", Some(f)) => {
+            let si = case["secret_idx"].as_u64().unwrap_or(0) as usize;
+            let i0 = case["raw0_idx"].as_u64().unwrap_or(0) as usize;
+            let i1 = case["raw1_idx"].as_u64().unwrap_or(0) as usize;
+            let (_, jr) = law_case(f, label, &t, 0, 0, 0, None, false);
+            law_case(f, label, &t, si, i0, i1, jr.as_ref(), true).0
+        }
+        ("evalres", _) => {
+            let kind = case["kind"].as_u64().unwrap_or(0) as usize;
+            let mut v = vec![];
+            for _ in 0..3 {
+                v.extend(evalres_case(r.seed, label, &t, kind, true));
+            }
+            v
+        }
+        _ => {
+            println!("MACHINERY-ERROR property=C14 unknown replay part '{}'", part);
+            return 2;
+        }
+    };
+    for v in viols.iter() {
+        println!("observed violation [{}]: {}", v.sig, v.what);
+    }
+    if viols.iter().any(|v| v.sig == want_sig) || (want_sig.is_empty() && !viols.is_empty()) {
+        println!("REPRODUCED property=C14 signature={}", want_sig);
+        1
+    } else {
+        println!("NOT-REPRODUCED property=C14 signature={}", want_sig);
+        0
+    }
 }
